@@ -20,6 +20,7 @@ RULE = ('configured x proposed hold in {0,3,4,9,30,90,180,65535}; phases: establ
 ASSUMPTIONS = [
     'tolerance 1e-6 s on H/3 (floating point division); the simulator fires a timer exactly at its due time',
     'when an arrival coincides with the hold expiry both orders are generated and the expectation follows the order',
+    'arrival kinds KK / KU / UK / KUK: the messages reach the agent in one TCP segment',
     'an "UPDATE that arrives" is any UPDATE message the agent keeps the session up for: well-formed ones of every address '
     'family (vlib/corpus) and body-malformed ones, which this agent tolerates (C10)',
 ]
@@ -63,6 +64,9 @@ def _arrival_msg(kind, i):
     """'K' KEEPALIVE, 'U' the small marked IPv4 UPDATE, 'U:<k>' well-formed UPDATE body k of vlib.corpus"""
     if kind == 'K':
         return rc.keepalive()
+    if kind in ('KK', 'KU', 'UK', 'KUK'):
+        # several messages that TCP delivers in one segment
+        return b''.join(rc.keepalive() if ch == 'K' else ss.marked_update(i + 1 + n)[0] for n, ch in enumerate(kind))
     if kind == 'UM':
         # an UPDATE whose body fails the agent's checks (ORIGIN 5): tolerated (C10) and still an UPDATE that arrived
         return ss.marked_update(i + 1, malformed=True)[0]
@@ -290,7 +294,7 @@ def audit(sim, c, H, t_oc, end, dead_at):
 GAPS = ['H-e', 'H', 'H+e', 'H/3-e', 'H/3', 'H/3+e', '0', 'small', '2H/3', 'H/2']
 NBODIES = len(corpus.update_bodies())
 arrival = st.tuples(st.sampled_from(GAPS + ['H-e', 'H', '2H/3', 'H/2']),
-                    st.one_of(st.sampled_from(['K', 'U', 'UM', 'K+S', 'U+S']), st.integers(0, NBODIES - 1).map(lambda k: 'U:%d' % k)),
+                    st.one_of(st.sampled_from(['K', 'U', 'UM', 'K+S', 'U+S', 'K', 'U', 'KK', 'KU', 'UK', 'KUK']), st.integers(0, NBODIES - 1).map(lambda k: 'U:%d' % k)),
                     st.sampled_from(['msg', 'timer'])).map(list)
 case_strategy = st.fixed_dictionaries({
     'conf': st.one_of(st.sampled_from(HOLDS), st.integers(3, 400)), 'prop': st.one_of(st.sampled_from(HOLDS), st.integers(3, 400)), 'conf_ka': st.sampled_from([60, 60, 1, 7, 600]),
@@ -325,7 +329,8 @@ def run_shard(spec, seed, col, tier):
         # every config pair x every phase x a few canonical schedules incl. both tie orders
         scheds = [[], [['H', 'K', 'msg']], [['H', 'K', 'timer']], [['H-e', 'U', 'msg']] * 3, [['H/3', 'K', 'timer']] * 4,
                   [['H/2', 'K+S', 'msg']] * 3, [['small', 'K+S', 'msg']] * 6 + [['H/2', 'U+S', 'msg']],
-                  [['H+e', 'K', 'msg']], [['0', 'U', 'msg']] * 5 + [['H', 'U', 'msg']]]
+                  [['H+e', 'K', 'msg']], [['0', 'U', 'msg']] * 5 + [['H', 'U', 'msg']],
+                  [['H/2', 'KK', 'msg']] * 3, [['H/2', 'KU', 'msg'], ['H-e', 'UK', 'msg'], ['H/2', 'KUK', 'msg']]]
         for conf in HOLDS:
             for prop in HOLDS:
                 for phase in ('est', 'opensent', 'openconfirm'):
